@@ -257,7 +257,12 @@ pub(crate) fn aead_setup_rfc9580(
     chunk_size: ChunkSize,
     salt: &[u8],
     ikm: &[u8],
-) -> ([u8; 5], Zeroizing<Vec<u8>>, Vec<u8>) {
+) -> Result<([u8; 5], Zeroizing<Vec<u8>>, Vec<u8>), Error> {
+    // Unknown algorithms have no defined nonce size, reject them before any size arithmetic.
+    if aead.tag_size().is_none() {
+        return Err(UnsupporedAlgorithmSnafu { alg: aead }.build());
+    }
+
     let info = [
         Tag::SymEncryptedProtectedData.encode(), // packet type
         0x02,                                    // version
@@ -278,7 +283,7 @@ pub(crate) fn aead_setup_rfc9580(
     let mut nonce = vec![0u8; aead.nonce_size()];
     nonce[..raw_iv_len].copy_from_slice(iv);
 
-    (info, message_key, nonce)
+    Ok((info, message_key, nonce))
 }
 
 /// Allowed chunk sizes.
